@@ -33,6 +33,9 @@ T = {
  'C08': ('E1-simnet', 'model_checking', E1_TECH,
          'Pipelines (chain-3, tee, rejoin) x position of the ending filter x ending (exit()/exception in init, setup, k-th process, send, recv, shutdown; stop event; exit_after as seconds, m:s string, @datetime) x propagate/obey policy pairs: all timely schedules with <= d deviations; per filter shutdown-once-iff-setup, sockets closed, stop event set, run() returns/raises; pipeline-wide the set of terminating filters equals the closure of the announcement over the connection graph.',
          E1_NOTE, '4 C08'),
+ 'C18': ('E1-simnet', 'model_checking', 'stateless preemption-bounded exploration of the real Filter.run main thread and the real OpenFilterLineage heartbeat thread under a controlled scheduler (scheduler-aware threading in lineage.py), capturing every emitted event',
+         'Every way a run can end (exit()/exception in init, setup, k-th process, shutdown; stop event; exit_after) x run length 0.4 / 1 / 2.5 heartbeat intervals: all interleavings of the two threads with <= 2 (quick) / 3 (thorough) preemptions at Event/Lock/emit/poll/sleep operations; history must be START RUNNING* (COMPLETE|ABORT), one run id, COMPLETE iff run() returned normally.',
+         'The OpenLineage client is a capturing fake; lineage.threading is replaced by mc/simthread.py; memory-level races between the two threads are explored at synchronisation operations and emit calls only.', '4 C18'),
  'C07': ('E1-simnet', 'model_checking', E1_TECH,
          'Splitter with balanced outputs over 2-4 branches, workers of all speed combinations, balanced-sources joiner: all schedules with <= d deviations under arbitrary delays; each id on exactly one branch, rejoined stream duplicate-free, strictly increasing, one id per set.',
          E1_NOTE, '4 C07'),
@@ -71,7 +74,7 @@ T.update({
          E3_NOTE, '4 C17'),
 })
 
-BUILT = ['C01', 'C02', 'C03', 'C04', 'C05', 'C06', 'C07', 'C08', 'C09', 'C10']
+BUILT = ['C01', 'C02', 'C03', 'C04', 'C05', 'C06', 'C07', 'C08', 'C09', 'C10', 'C18']
 
 def main():
     checks = []
